@@ -108,11 +108,15 @@ claim("C17", "other",
       "Trusted: serde derive semantics for attribute-free items; serde_json/ryu/fpdec conversions.",
       "impl-table + derive-expansion table extraction (static); round-trip clause not applicable", "DESIGN.md §4 C17")
 claim("C18", "other",
-      "PARTLY decided: complete inventory of panic-capable sites (Assert terminators, diverging calls, unwrap/expect/index vocabulary, unvetted std callees) in the MIR of every library body in "
-      "both back-ends = the three documented mixed-unit panics + one Option::unwrap in _fit; the documented panics are unreachable from reference-unit types (resolved call graph); the unwrap is "
-      "discharged for every result type and every cell from the extracted tables. NOT decided: absence of fpdec overflow for in-range magnitudes (needs numeric range analysis).",
-      "Trusted: MIR construction makes every language-level panic explicit; f64 arithmetic never panics; allow-listed std functions; fpdec arithmetic is the only other panic source in the decimal configuration.",
-      "MIR panic-site inventory + call-graph reachability + table-based discharge (static)", "DESIGN.md §4 C18")
+      "Complete inventory of panic-capable sites (Assert terminators, diverging calls, unwrap/expect/index vocabulary, unvetted std callees) in the MIR of every library body in both back-ends "
+      "= the three documented mixed-unit panics + one Option::unwrap in _fit; the documented panics are unreachable from reference-unit types (resolved call graph); the unwrap is discharged for "
+      "every result type and every cell from the extracted tables. Decimal back-end: magnitude-bound analysis (exact rational vertex enumeration over the polygon of admissible amounts) of every "
+      "arithmetic node of every derived operator x unit pair and of convert/==/partial_cmp/+/-// of every reference-unit type x ordered unit pair: every intermediate stays below 2^127/10^18 "
+      "whenever the property's named magnitudes lie in [1e-15, 1e17]. Found and fixed a genuine overflow defect (known_findings.json). NOT decided: decimal range of rate operations and of "
+      "formatting (no named magnitudes bound their intermediates).",
+      "Trusted: MIR construction makes every language-level panic explicit; f64 arithmetic never panics; allow-listed std functions; fpdec-0.11 overflow semantics as read from its source "
+      "(mul/div panic iff the 18-digit result coefficient exceeds i128, add/sub align by <= 10^18).",
+      "MIR panic-site inventory + call-graph reachability + table-based discharge + magnitude-bound analysis over value-flow terms (static)", "DESIGN.md §4 C18, §10")
 claim("C19", "proof",
       "Finite lattice: rustc's type-check verdict on 30 (quick) / all 128 (thorough) configurations; independent of sampling: feature closure ⊇ module-use graph per feature, module gates, "
       "no std:: in catalogue modules, all cfg(feature) sites classified, every body shared by a small and the full configuration has an identical fingerprint (additivity, incl. f64-all vs f64+serde), "
